@@ -89,6 +89,7 @@ type scenario struct {
 	// generator facts used to decide which oracle clauses apply
 	consistent bool // every handler-what gets the same keys
 	sorted     bool // groups ascending by time slot, rows inside a group sorted in the requested direction
+	wide       bool // tag values over the whole int64 range
 	clean      bool // unique keys per answer, non-by tags zero, skey empty unless grouped by it, rows inside their LOD
 }
 
@@ -223,6 +224,18 @@ func keyStr(r *api.VerifRow) string {
 
 // ---------------------------------------------------------------- generator
 
+// raw 64-bit tag values: the whole int64 range, pairs more than MaxInt64 apart, pairs exactly 2^63 apart
+var wideVals = []int64{math.MinInt64, math.MinInt64 + 1, -6e18, -(1 << 62), -1, 0, 1, 1 << 62, 6e18, math.MaxInt64 - 1, math.MaxInt64,
+	-(1 << 62) - 1, (1 << 62) + 1, math.MinInt32, math.MaxInt32}
+
+// tagVal: an ordinary small value, or (wide cases) any of the boundary values
+func tagVal(r *verifx.Rng, wide bool, small int) int64 {
+	if wide && r.Chance(2, 3) {
+		return wideVals[r.Intn(len(wideVals))]
+	}
+	return int64(r.Intn(small))
+}
+
 func genScenario(r *verifx.Rng, h *verifx.H) *scenario {
 	sc := &scenario{}
 	// group-by
@@ -245,6 +258,7 @@ func genScenario(r *verifx.Rng, h *verifx.H) *scenario {
 	sc.clean = !r.Chance(1, 12)
 	sc.sorted = !r.Chance(1, 7)
 	sc.consistent = !r.Chance(1, 4)
+	sc.wide = r.Chance(1, 4)
 	// whats
 	var ds []promql.DigestWhat
 	if r.Chance(3, 5) {
@@ -309,7 +323,7 @@ func genScenario(r *verifx.Rng, h *verifx.H) *scenario {
 			for i := 0; i < n; i++ {
 				row := api.VerifRow{Time: l.From + int64(s), Tags: make([]int64, NT)}
 				for _, j := range sc.by {
-					row.Tags[j] = int64(r.Intn(4))
+					row.Tags[j] = tagVal(r, sc.wide, 4)
 				}
 				if sc.bySk {
 					row.SKey = skeys[r.Intn(len(skeys))]
@@ -317,7 +331,7 @@ func genScenario(r *verifx.Rng, h *verifx.H) *scenario {
 				if !sc.clean {
 					switch r.Intn(6) {
 					case 0:
-						row.Tags[r.Intn(NT)] = int64(r.Intn(4))
+						row.Tags[r.Intn(NT)] = tagVal(r, sc.wide, 4)
 					case 1:
 						row.SKey = skeys[r.Intn(len(skeys))]
 					case 2:
@@ -403,7 +417,7 @@ func genScenario(r *verifx.Rng, h *verifx.H) *scenario {
 		}
 		for j := 0; j < NT; j++ {
 			if r.Chance(1, 2) {
-				m.Tags = append(m.Tags, api.RawTag{Index: j, Value: int64(r.Intn(5)) - 1})
+				m.Tags = append(m.Tags, api.RawTag{Index: j, Value: tagVal(r, sc.wide, 5) - 1 + b2i64(sc.wide)})
 			}
 		}
 		if r.Chance(1, 12) {
@@ -650,12 +664,18 @@ func runScenario(h *verifx.H, sc *scenario) {
 	if !sc.clean {
 		h.Stat("storage.dirty", 1)
 	}
+	if sc.wide {
+		h.Stat("tags.wide", 1)
+	}
 	if sc.from.Time != 0 {
 		h.Stat("marker.from", 1)
 	}
 	if sc.to.Time != 0 {
 		h.Stat("marker.to", 1)
 	}
+
+	// ---- the two comparators directly, over boundary values
+	runComparators(h, sc)
 
 	// ---- limitQueries directly
 	for _, lq := range sc.lqs {
@@ -938,6 +958,119 @@ func runScenario(h *verifx.H, sc *scenario) {
 	_ = visited
 }
 
+// cmp3: reference three-way comparison of int64 (no arithmetic)
+func cmp3(a, b int64) int {
+	if a < b {
+		return -1
+	} else if a > b {
+		return 1
+	}
+	return 0
+}
+
+// runComparators: `cmp` = the real queryTableRows.Less on two row markers, `mlt` = the real lessThan of a marker against
+// a storage row; both are compared with the model (order on unbounded Int) and with a reference lexicographic order.
+// The PRNG is derived from the scenario so that the generated scenario itself is unchanged by these ops.
+func runComparators(h *verifx.H, sc *scenario) {
+	r := verifx.NewRng(uint64(sc.limit)*0x9E3779B97F4A7C15 + uint64(len(sc.whats))*7919 + uint64(len(sc.lods))*104729 + uint64(b2i(sc.fromEnd)) + 12345)
+	val := func() int64 {
+		if r.Chance(3, 4) {
+			return wideVals[r.Intn(len(wideVals))]
+		}
+		return int64(r.Intn(3))
+	}
+	for n := 0; n < 4; n++ {
+		nt := r.Pick(1, 3, 3, 1)
+		mk := func(ntags int) api.RowMarker {
+			m := api.RowMarker{Time: int64(10 + r.Intn(2)), SKey: skeys[r.Intn(3)]}
+			for j := 0; j < ntags; j++ {
+				m.Tags = append(m.Tags, api.RawTag{Index: j, Value: val()})
+			}
+			return m
+		}
+		a := mk(nt)
+		b := mk(nt)
+		switch r.Intn(6) {
+		case 0:
+			b = mk(r.Pick(1, 3, 3, 1)) // possibly another length
+		case 1, 2: // equal prefix, differ late
+			b.Time = a.Time
+			for j := range b.Tags {
+				if j+1 < len(b.Tags) || r.Bool() {
+					b.Tags[j].Value = a.Tags[j].Value
+				}
+			}
+		}
+		h.Op("cmp %s / %s", markerStr(a), markerStr(b))
+		func() {
+			defer func() {
+				if p := recover(); p != nil {
+					h.Obs("panic")
+				}
+			}()
+			got := api.VerifLess(a, b)
+			h.Obs("cmp %d", b2i(got))
+			h.Stat("cmp.calls", 1)
+			// reference: lexicographic on (time, number of tags, tag values, skey)
+			c := cmp3(a.Time, b.Time)
+			if c == 0 {
+				c = cmp3(int64(len(a.Tags)), int64(len(b.Tags)))
+			}
+			for j := 0; c == 0 && j < len(a.Tags); j++ {
+				c = cmp3(a.Tags[j].Value, b.Tags[j].Value)
+				if c != 0 && (a.Tags[j].Value < 0) != (b.Tags[j].Value < 0) {
+					h.Stat("cmp.decided-by-opposite-signs", 1)
+				}
+			}
+			if c == 0 {
+				c = strings.Compare(a.SKey, b.SKey)
+			}
+			if got != (c < 0) {
+				h.Viol("less-order", "queryTableRows.Less((%s), (%s)) = %v, the rows compare %d in (time, tags, skey) order", markerStr(a), markerStr(b), got, c)
+			}
+		}()
+	}
+	for n := 0; n < 3; n++ {
+		row := api.VerifRow{Time: int64(10 + r.Intn(2)), Tags: make([]int64, NT), SKey: skeys[r.Intn(3)]}
+		for j := range row.Tags {
+			row.Tags[j] = val()
+		}
+		m := api.RowMarker{Time: int64(10 + r.Intn(2)), SKey: skeys[r.Intn(3)]}
+		for j := 0; j < NT; j++ {
+			if r.Chance(2, 3) {
+				v := val()
+				if r.Chance(1, 3) {
+					v = row.Tags[j]
+				}
+				m.Tags = append(m.Tags, api.RawTag{Index: j, Value: v})
+			}
+		}
+		if r.Chance(1, 2) {
+			m.Time = row.Time
+		}
+		orEq, fe := r.Bool(), r.Bool()
+		h.Op("mlt %s / %d %s %d / %d %d", markerStr(m), row.Time, tagsStr(row.Tags), skeyCode(row.SKey), b2i(orEq), b2i(fe))
+		func() {
+			defer func() {
+				if p := recover(); p != nil {
+					h.Obs("panic")
+				}
+			}()
+			got := api.VerifLessThan(m, row, orEq, fe)
+			h.Obs("mlt %d", b2i(got))
+			h.Stat("mlt.calls", 1)
+			c := cmpMarker(m, &row) // reference: marker tuple against the row's projection, three-way
+			if fe {
+				c = -c
+			}
+			want := c < 0 || (orEq && c == 0)
+			if got != want {
+				h.Viol("lessthan-order", "lessThan((%s), row %s, orEq=%v, fromEnd=%v) = %v, want %v", markerStr(m), keyStr(&row), orEq, fe, got, want)
+			}
+		}()
+	}
+}
+
 func countRows(gs [][]api.VerifRow) int {
 	n := 0
 	for _, g := range gs {
@@ -952,6 +1085,13 @@ func countAll(sc *scenario) int {
 		n += countRows(sc.store[0][k].groups)
 	}
 	return n
+}
+
+func b2i64(b bool) int64 {
+	if b {
+		return 1
+	}
+	return 0
 }
 
 func b2i(b bool) int {
